@@ -371,7 +371,11 @@ impl ReactCache
         mut cache       : ResMut<ReactCache>,
         mut commands    : Commands,
         entity_reactors : Query<&EntityReactors>,
+        inserted        : Query<(), With<React<C>>>,
     ){
+        // do nothing if the insertion did not happen (the entity was despawned before the command was applied)
+        if !inserted.contains(entity) { return; }
+
         let rtype = EntityReactionType::Insertion(TypeId::of::<C>());
         #[cfg(cobweb_verif)]
         crate::verif::emit(crate::verif::Event::Sched{ trig: "ins", ty: Some(TypeId::of::<C>()), ent: Some(entity) });
